@@ -86,6 +86,15 @@ class MachO(BinFormat):
         return self.__file.name
 
     def __init__(self, f):
+        try:
+            self.__parse(f)
+        except (MachOError, StructureError):
+            raise
+        except Exception as e:
+            # malformed content is reported as a MachOError only:
+            raise MachOError("malformed Mach-O file (%s)" % repr(e))
+
+    def __parse(self, f):
         self.__file = f
         self.__entry = None
         self._is_fat = False
